@@ -28,7 +28,8 @@ def traces(ctx, n, batch=400):
         rec = ctx.path("rete_%d.ndjson" % b)
         p = c.vh(["reterec", "--n", k, "--seed", ctx.seed * 7919 + b, "--out", rec], timeout=1800)
         if p.returncode != 0:
-            raise c.ToolError("reterec failed: " + p.stderr[-500:])
+            c.recorder_failed(ctx, "reterec", p, "rete-trace")
+            continue
         info = json.loads(p.stdout.strip().splitlines()[-1])
         norm = ctx.path("rete_%d.norm" % b)
         raw = normalize(rec, norm)
